@@ -24,6 +24,9 @@ struct O16 { u16* o; u8 z; };
 struct W64 { u64 big<>; };
 struct GrD { u8 a; Dy g<...>; };
 struct T5 { u64 x; u8 a<>; u8 b; };
+struct WideCnt { u64 n; u32 x<@n>; u8 t; };
+struct WideCntS { i64 n; OptSize x<@n>; };
+struct WideCnt16 { u8 a; u64 n; u16 x<@n>; };
 '''
 
 
